@@ -76,7 +76,7 @@ func c05(r *mon.Run) {
 	r.Assumptions = []string{"recover() observes every run-time panic; fatal errors and hangs are observed by the parent process (exit status, stall alarm, watchdog)",
 		"memory bound used: TotalAlloc per call <= 1 MiB + 64 x len(expression) x (size(document) + size(result) + 64) bytes, measured serially: a product, because a tree-walking evaluation visits the data once per step; it catches super-polynomial blow-ups only"}
 	hd := hostileDocs()
-	gens := []byteGen{genShortBytes(), genTokenSoup(r.Seed, tierPick(r, 150000, 3000000)), genNesting(), genMutations(r.Seed, r.Root, tierPick(r, 120000, 3000000))}
+	gens := []byteGen{genShortBytes(), genTokenSoup(r.Seed, tierPick(r, 150000, 3000000)), genNesting(), genCutShort(), genMutations(r.Seed, r.Root, tierPick(r, 120000, 3000000))}
 	var ws []mon.Workload
 	for _, g := range gens {
 		g := g
